@@ -32,6 +32,8 @@ def build_jobs(tier, seed):
                                       family='backward'), split_depth=12))
         for fmt in ('qcow2', 'luks', 'vhd'):
             jobs.append(J(H['simple-flip'], dict(P, fmt=fmt, cuts=1)))
+    jobs.append(J(H['vmdk-text'], dict(P)))
+    jobs += img.vmdk_jobs(J, H, PROPS, tier, {'hdr', 'desc1', 'footer'})
     return jobs
 
 
